@@ -351,10 +351,29 @@ def r19_12(run, model):
     run.floor("name builders that embed a type", n, 2)
 
 
+def r19_13(run, model):
+    run.rule("R19.13", "whether a type is emitted does not depend on how the user spelt its name: the predicates that decide which struct and "
+                       "enum definitions the Go back end declares (and whose helper types it collects) look at the definition - its "
+                       "generics and field types - never at a substring of the name")
+    GOC = "crates/compiler/src/go/compile.rs"
+    n = 0
+    for f in model.fns(GOC):
+        if f.body is None or not re.search(r"is_emitted$|^gen_type_definition$", f.name):
+            continue
+        n += 1
+        tests = [c for c in S.walk(f.body) if c["k"] == "MethodCall" and c["method"] in ("contains", "starts_with", "ends_with", "find")
+                 and c["args"] and c["args"][0]["k"] == "Lit" and re.search(r"name", S.norm_ws(run.facts.text(GOC, c["recv"]["sp"])))]
+        run.ob("R19.13", f"{f.name}|emission is decided from the definition, not from the spelling of its name", not tests, site(GOC, (tests or [f.node])[0]["sp"]),
+               f"substring tests on the name: {[S.norm_ws(run.facts.text(GOC, c['sp']))[:50] for c in tests] or 'none'}",
+               witness="struct TParam { .. } / enum TParamKind { .. }: the Go output uses both types and declares neither; renaming them to TyVar fixes it")
+    run.floor("emission predicates examined", n, 2)
+
+
 def run(run, model):
     run.try_rule(r19_8, model)
     run.try_rule(r19_10, model)
     run.try_rule(r19_12, model)
+    run.try_rule(r19_13, model)
     from rules import c17 as _c17
     run.rule("R19.11", "a user function cannot take the name of a builtin: define_function rejects a name that is already in the package's "
                        "function table, which holds the builtins too (shared with C16 R16.8) - the runtime defines those names and the back "
